@@ -107,6 +107,10 @@ theorem C03_positions (env : Env) (nm : Namer) (root : Stmt) (h : cleanS root = 
   obtain ⟨c, hc, hg, _⟩ := model_good env nm root h o ho
   exact ⟨c, hc, hg.2.1⟩
 
+/-- "Denotes" is anchored in `str`: the variable `qnOf s` that position `i` reads and writes prints back (`str(qn)`)
+to exactly the string `s` found in the names tuple — for every string, well-formed or not. -/
+theorem C03_name_is_str_of_variable (s : String) : (qnOf s).toString = s := qnOf_toString s
+
 /-- The same, by index. -/
 theorem C03_positions_at (env : Env) (nm : Namer) (root : Stmt) (h : cleanS root = true) :
     ∀ o ∈ emitted (cfOutput env nm root), ∃ c gs ts, o = some c ∧ getterTuple c = some gs ∧
